@@ -12,7 +12,8 @@ What is modelled (Lib/ufo2ft):
   `copyGlyph`), of `DottedCircleFilter` (`dcExec`), of `outlineCompiler.setupTable_MATH` (`mathExec`),
   of `CubicToQuadraticFilter.__call__`'s rememberCurveType write (`libKey`),
   of `PropagateAnchorsIFilter` resolving bases through `instantiator.InterpolatedLayer` while
-  `Instantiator.source_layers` still are the caller's layers (`Stage.instantiate/refresh/propagateI`, `instLeaks`).
+  `Instantiator.source_layers` still are the caller's layers (`Stage.instantiate/refresh/propagateI`, `instLeaks`):
+  since /repo 61a81a2 only with inplace=True; `pipelineOld` keeps the earlier behaviour for the record.
 
 Objects are either caller-owned (`Obj.owned`) or `fresh` (allocated during the call).  A stage emits `Write`s to
 cells (object, slot) through the *handles* of the environment (glyph sets, the designspace handle) or directly
@@ -190,7 +191,9 @@ inductive Stage
   | explode (src : Nat) (certain : Bool)
   | dottedCircle (src : Nat)
   | math (src : Nat)
-  | instantiate                    -- `Instantiator.from_designspace`: source layers = {g.name: g for g in layer} (reads only)
+  | instantiate (stale : Bool)     -- the Instantiator as the filters first see it, after `BaseInterpolatablePreProcessor.__init__`:
+                                   -- `from_designspace` made its source layers the caller's layers; `stale = false`: the constructor
+                                   -- pointed it at the glyph-set copies (`if not inplace: self._update_instantiator()`, 61a81a2)
   | refresh                        -- `_update_instantiator()` after a filter that certainly reported modifications
   | propagateI (src : Nat)         -- PropagateAnchors as interpolatable filter, resolving bases through the Instantiator
   | otf (name : String)            -- writes only into the TTFont being built
@@ -202,7 +205,8 @@ inductive Stage
 /-- stages that write through the `ufo` handle or bring caller objects into a glyph set / the ds handle -/
 def Stage.reaches : Stage → Bool
   | .fromLayer _ _ copy => !copy
-  | .explode _ _ | .dottedCircle _ | .math _ | .dsAlias | .propagateI _ => true
+  | .explode _ _ | .dottedCircle _ | .math _ | .dsAlias => true
+  | .instantiate stale => stale
   | _ => false
 
 /-! ### execution of one stage -/
@@ -331,7 +335,7 @@ def exec (inp : Inp) : Stage → Env → List Write × Env
     match e.gss[src]? with
     | none => ([], e)
     | some gs => (mathExec (inp.font gs.font) gs.font, e)
-  | .instantiate, e => ([], { e with instStale := true })
+  | .instantiate stale, e => ([], { e with instStale := stale })
   | .refresh, e => ([], { e with instStale := false })
   | .propagateI src, e =>
     match e.gss[src]? with
@@ -448,14 +452,16 @@ def single (inp : Inp) (ttf : Bool) : List Stage :=
 def perSource (inp : Inp) (g : Nat → Nat → List Stage) : List (List Stage) :=
   inp.cfg.sources.zipIdx.map (fun (s, i) => g i s.1)
 
-/-- {TTF,OTF}InterpolatablePreProcessor (constructor + process) -/
-def interpPre (inp : Inp) (ttf : Bool) : List Stage :=
+/-- {TTF,OTF}InterpolatablePreProcessor (constructor + process).  `old = true`: the constructor as it was before
+    /repo commit 61a81a2 (the Instantiator kept reading the caller's layers until a filter reported a change). -/
+def interpPre (old : Bool) (inp : Inp) (ttf : Bool) : List Stage :=
   let c := inp.cfg
   let all := srcIdx c
   let pre := perSource inp (preStages inp)
   let post := perSource inp (postStages inp)
   let dflt := perSource inp (fun i f => explodeStage inp i f (!ttf && !skipActive inp && pre.all List.isEmpty))
   fromLayers inp
+  ++ (if isDS c.fn then [Stage.instantiate (old || c.inplace)] else [])
   ++ (if skipActive inp then [Stage.filter all "SkipExportGlyphsIFilter" (fieldsOf "SkipExportGlyphsIFilter") none] else [])
   ++ zipLongest pre (maxLen pre)
   ++ (if ttf then [Stage.filter all "DecomposeComponentsIFilter" (fieldsOf "DecomposeComponentsIFilter") none] else [])
@@ -482,30 +488,34 @@ def assignFont (label : String) (i : Nat) : List Stage :=
 def nameWrites (named : List Bool) : List (String × Bool) :=
   named.zipIdx.filterMap (fun (b, i) => if b then none else some ("sources/" ++ toString i ++ "/name", true))
 
-def pipeline (inp : Inp) : List Stage :=
+def pipelineG (old : Bool) (inp : Inp) : List Stage :=
   let c := inp.cfg
   match c.fn with
   | .ttf => single inp true
   | .otf => single inp false
-  | .ittfs => interpPre inp true ++ interpCompile inp (!c.skipFeatures) (fun _ => [])
+  | .ittfs => interpPre old inp true ++ interpCompile inp (!c.skipFeatures) (fun _ => [])
   | .ittfsDS =>
-    [if c.inplace then Stage.dsAlias else Stage.dsCopy, Stage.instantiate] ++ interpPre inp true
+    [if c.inplace then Stage.dsAlias else Stage.dsCopy] ++ interpPre old inp true
     ++ interpCompile inp (!c.skipFeatures) (assignFont "_post_compile_designspace")
   | .iotfsDS =>
-    [if c.inplace then Stage.dsAlias else Stage.dsCopy, Stage.instantiate] ++ interpPre inp false
+    [if c.inplace then Stage.dsAlias else Stage.dsCopy] ++ interpPre old inp false
     ++ interpCompile inp (!c.skipFeatures) (assignFont "_post_compile_designspace")
   | .vttf =>
-    [if c.inplace then Stage.dsAlias else Stage.dsCopy, Stage.dsWrite "ensure_all_sources_have_names" (nameWrites c.dsNamed),
-     Stage.instantiate]
-    ++ interpPre inp true
+    [if c.inplace then Stage.dsAlias else Stage.dsCopy, Stage.dsWrite "ensure_all_sources_have_names" (nameWrites c.dsNamed)]
+    ++ interpPre old inp true
     ++ interpCompile inp (!c.skipFeatures && !c.variableFeatures) (assignFont "_compileNeededSources")
     ++ [Stage.otf "merge", Stage.otf "variableFeatures", Stage.otf "postprocess"]
   | .vcff2 =>
-    [if c.inplace then Stage.dsAlias else Stage.dsCopy, Stage.dsWrite "ensure_all_sources_have_names" (nameWrites c.dsNamed),
-     Stage.instantiate]
-    ++ interpPre inp false
+    [if c.inplace then Stage.dsAlias else Stage.dsCopy, Stage.dsWrite "ensure_all_sources_have_names" (nameWrites c.dsNamed)]
+    ++ interpPre old inp false
     ++ interpCompile inp (!c.skipFeatures && !c.variableFeatures) (assignFont "_compileNeededSources")
     ++ [Stage.otf "merge", Stage.otf "variableFeatures", Stage.otf "postprocess"]
+
+/-- the pipelines of the current code -/
+def pipeline (inp : Inp) : List Stage := pipelineG false inp
+
+/-- the pipelines before /repo commit 61a81a2 (kept to state the repaired defect) -/
+def pipelineOld (inp : Inp) : List Stage := pipelineG true inp
 
 def env0 (inp : Inp) : Env :=
   { clPresent := (inp.fonts.zipIdx.filter (fun (fd, _) => fd.lib.colorLayers)).map (·.2) }
@@ -517,5 +527,8 @@ def trace (inp : Inp) (k : Nat) : List Write := (run inp ((pipeline inp).take k)
 def leaks (inp : Inp) (k : Nat) : List Write := (trace inp k).filter (·.cell.obj.owned)
 
 def leaksAll (inp : Inp) : List Write := leaks inp (pipeline inp).length
+
+/-- what the pre-61a81a2 pipeline wrote into caller-owned cells -/
+def leaksOld (inp : Inp) : List Write := ((run inp (pipelineOld inp) (env0 inp)).1).filter (·.cell.obj.owned)
 
 end Ufo2ft.C07
